@@ -53,7 +53,7 @@ MANIFEST = {"technique": "runtime monitoring: real UnscentedKalmanFilter on stub
             "level_note": "linear stub dynamics/observations replace the environment of the filter only; kfref is trusted"}
 
 EPS = kf.EPS
-C_TOL = 64.0          # calibrated: worst observed (error / first-order bound) on >1e5 steps is < 0.5, see report
+C_TOL = 100.0         # calibrated: worst observed error / first-order bound over 1.2e5 steps (both modes, repaired resample path) is 0.82
 DECIDE_REL = 1e-3     # a comparison is decided only if its bound is below this fraction of the compared update term
 K_STALE = "resample-stale-sigma-x-res"
 
@@ -465,13 +465,22 @@ def run_sequence(ctx, spec, stats=None):
         # mechanism classification for the resample path (observed fact: which formula the filter's gain follows)
         stale = False
         if resample:
+            # observed fact 1: the state residuals held by the filter are not the residuals of the sigma points it holds
             try:
-                sref = kf.stale_cross_update(pred_x, ppf, fm, np.linalg.cholesky(p_prev), h, r, y)
+                sp, sxr = np.array(f.sigma_points, dtype=float), np.array(f.sigma_x_res, dtype=float)
+                mismatch = _mx(sxr - (sp - pred_x.reshape(n, 1)))
+                stale_state = sp.shape == sxr.shape == (n, 2 * n + 1) and mismatch > 1e-9 * max(_mx(sxr), _mx(sp - pred_x.reshape(n, 1)), 1e-300)
+            except Exception:  # noqa: BLE001
+                stale_state = False
+            # observed fact 2: the gain follows the stale-pairing formula
+            try:
+                sref = kf.stale_cross_update(pred_x, pred_p, fm, np.linalg.cholesky(p_prev), h, r, y)
                 d_stale, d_kf = _mx(kk - sref["k"]), e_k
                 # the gain follows the stale formula to rounding and is (much) further from the Kalman gain
                 stale = d_stale <= 4 * t_k + 1e-9 * _n2(sref["k"]) and d_kf > 64 * max(d_stale, EPS * _n2(sref["k"]))
             except np.linalg.LinAlgError:
                 stale = False
+            stale = bool(stale or stale_state)
         mode = "Kalman update" if resample else "no-redraw variant"
         mon = "post_eq_kf" if resample else "post_eq_noredraw"
         key = K_STALE if stale else ("posterior-ne-kf-resample" if resample else "posterior-ne-noredraw-variant")
